@@ -1077,6 +1077,19 @@ func (t *tScreen) writeString(s string) {
 // the application (a title, a URL).  Padding is a matter of the capability:
 // a "$<...>" in the text is text, it is neither removed nor slept on.
 func (t *tScreen) putsText(capability string, p ...interface{}) {
+	for i, v := range p {
+		if text, ok := v.(string); ok {
+			// the text goes inside a control string: a control character
+			// in it (BEL, ESC) would end that string and hand the rest
+			// of the text to the terminal as commands
+			p[i] = strings.Map(func(r rune) rune {
+				if r < ' ' || (r >= 0x7f && r < 0xa0) {
+					return -1
+				}
+				return r
+			}, text)
+		}
+	}
 	s := t.ti.TParm(capability, p...)
 	if strings.Contains(capability, "$<") {
 		t.TPuts(s)
